@@ -169,10 +169,14 @@ def run_driver(exe, lines, env=None, chunk=400, timeout=1800, cpu_limit=600, mem
             class P: pass
             p = P(); p.stdout = (e.stdout or b'').decode(errors='replace') if isinstance(e.stdout, bytes) else (e.stdout or ''); p.stderr = 'timeout'; p.returncode = -9
         out = [l for l in p.stdout.split('\n') if l.startswith('(')]
-        if len(out) != len(c):
-            # find the crashing case: report it as a crash line
-            out += ['(crash %d %s)' % (p.returncode, dump(p.stderr[-300:].encode()))] * (len(c) - len(out))
-        return out
+        if len(out) < len(c):
+            # the process died while working on case number len(out): that case is reported as crashed, the cases after it
+            # are innocent and are run again in a fresh process
+            out.append('(crash %d %s)' % (p.returncode, dump(p.stderr[-300:].encode())))
+            rest = c[len(out):]
+            if rest:
+                out += one(rest)
+        return out[:len(c)]
     with concurrent.futures.ThreadPoolExecutor(max_workers=16) as ex:
         res = list(ex.map(one, chunks))
     return [l for r in res for l in r]
